@@ -176,14 +176,10 @@ theorem scVal_norec : ∀ (l : List Fx) (isAnd : Bool), ¬ isRec (scVal K sem m 
     | val v =>
       simp only
       split
-      · exact scVal_norec rest isAnd
-      · cases sem.truth v with
-        | none => intro ⟨n, h⟩; cases h
-        | some b =>
-          simp only
-          split
-          · exact scVal_norec rest isAnd
-          · intro ⟨n, h⟩; cases h
+      · intro ⟨n, h⟩; cases h
+      · split
+        · intro ⟨n, h⟩; cases h
+        · exact scVal_norec rest isAnd
 end
 end
 
